@@ -1108,6 +1108,9 @@ def fixed_shapes():
     emp = add("empty", [])
     add("useEmpty", [Field("a", i32()), Field("e", T("ref", decl=emp, bare=True, pct=False, args=[])), Field("t", tr()), Field("u", T("true", boxed=True)), Field("b", i32()), Field("s", st()),
                      Field("es", T("vector", elem=T("ref", decl=emp, bare=True, pct=False, args=[]), form="bare")), Field("c", i32())])
+    ft = add("flagsTail", [nat("fm"), Field("x", i32()), Field("ok", T("true", boxed=True), m("fm", 0))])
+    add("flagsTail2", [nat("fm"), Field("x", st()), Field("a", T("true", boxed=True), m("fm", 0)), Field("b", T("true", boxed=True), m("fm", 3)), Field("c", tr(), m("fm", 4))])
+    add("holderTail", [Field("v", T("vector", elem=T("ref", decl=ft, bare=True, pct=False, args=[]), form="bare")), Field("w", T("ref", decl=ft, bare=False, pct=False, args=[]))])
     add("bigstr", [Field("s", st()), Field("t", T("vector", elem=st(), form="bare")), Field("u", T("dict", key="str", elem=i32(), boxed=False))])
     return s
 
